@@ -24,6 +24,7 @@ var (
 	nShards = envInt("VERIF_NSHARDS", 1)
 	tier    = envOr("VERIF_TIER", "quick")
 	seed    = envInt("VERIF_SEED", 1)
+	unit    = envOr("VERIF_UNIT", "u")
 )
 
 func envOr(k, d string) string {
@@ -71,6 +72,7 @@ type Ev struct {
 	FailMsg   string         `json:"fail_msg"`
 	Exhaust   bool           `json:"exhaustive"`
 	Classes   map[string]int `json:"-"`
+	NTCount   int            `json:"-"` // distinct non-trivial cases counted without hashing (enumerations)
 	biggest   int
 	sampleCap int
 }
@@ -113,6 +115,13 @@ func (e *Ev) Case(c any, nontrivial bool, size int) {
 func (e *Ev) Count(n int) {
 	e.mu.Lock()
 	e.Evals += n
+	e.mu.Unlock()
+}
+
+// NTAdd adds n distinct non-trivial cases (distinct by construction, e.g. an enumeration).
+func (e *Ev) NTAdd(n int) {
+	e.mu.Lock()
+	e.NTCount += n
 	e.mu.Unlock()
 }
 
@@ -163,10 +172,10 @@ func (e *Ev) write() {
 		"property_id": e.Property, "evaluations": e.Evals, "nontrivial_keys": keys, "labels": e.Labels,
 		"excluded": e.Excluded, "samples": e.Samples, "rule": e.Rule, "assumptions": e.Assume,
 		"extra": e.Extra, "failed": e.Failed, "fail_msg": e.FailMsg, "exhaustive": e.Exhaust,
-		"shard": shard, "known": e.Known, "classes": classKeys(e.Classes),
+		"shard": shard, "known": e.Known, "classes": classKeys(e.Classes), "nontrivial_count": e.NTCount,
 	}
 	b, _ := json.MarshalIndent(out, "", " ")
-	_ = os.WriteFile(filepath.Join(outDir, fmt.Sprintf("shard-%s-%d.json", e.Property, shard)), b, 0o644)
+	_ = os.WriteFile(filepath.Join(outDir, fmt.Sprintf("shard-%s-%s-%d.json", e.Property, unit, shard)), b, 0o644)
 }
 
 func classKeys(m map[string]int) []string {
@@ -197,11 +206,11 @@ func writeReplay(path, id, sub string, c any, msg string) {
 }
 
 func journalPath(id string) string {
-	return filepath.Join(outDir, fmt.Sprintf("journal-%s-%d.json", id, shard))
+	return filepath.Join(outDir, fmt.Sprintf("journal-%s-%s-%d.json", id, unit, shard))
 }
 
 func failPath(id string) string {
-	return filepath.Join(outDir, fmt.Sprintf("fail-%s-%d.json", id, shard))
+	return filepath.Join(outDir, fmt.Sprintf("fail-%s-%s-%d.json", id, unit, shard))
 }
 
 // registry of replayable sub-checks: property id + sub name -> function running a raw JSON case.
